@@ -231,6 +231,45 @@ class Bench:
         return (dev.result if exc is None else getattr(dev, "cur_item", None)), it, dev, exc, data
 
 
+def run_pages(data: bytes):
+    """A complete multi-page file processed the way a caller does it: one resource manager, one device and
+    one interpreter for all pages.  Returns [(ltpage | None, exception | None), ...] in page order."""
+    from pdfminer.converter import PDFPageAggregator
+    from pdfminer.pdfdocument import PDFDocument
+    from pdfminer.pdfinterp import PDFPageInterpreter, PDFResourceManager
+    from pdfminer.pdfpage import PDFPage
+    from pdfminer.pdfparser import PDFParser
+
+    doc = PDFDocument(PDFParser(io.BytesIO(data)))
+    rs = PDFResourceManager()
+    dev = PDFPageAggregator(rs, laparams=None)
+    it = PDFPageInterpreter(rs, dev)
+    out = []
+    for page in PDFPage.create_pages(doc):
+        dev.result = None
+        try:
+            it.process_page(page)
+            out.append((dev.result, None))
+        except Exception as e:  # noqa: classified by the oracle
+            out.append((None, e))
+            dev._stack = []
+    return out
+
+
+def pages_doc(pages, doc=None) -> bytes:
+    """pages: list of (content bytes, resources dict); objects referenced by the resources must already be in ``doc``"""
+    d = doc or G.Doc()
+    cat = d.reserve()
+    root = d.reserve()
+    kids = []
+    for content, res in pages:
+        c = d.add(G.Stream({}, bytes(content)))
+        kids.append(d.add({"Type": G.N("Page"), "Parent": root, "MediaBox": [0, 0, 612, 792], "Resources": res, "Contents": c}))
+    d.set(cat, {"Type": G.N("Catalog"), "Pages": root})
+    d.set(root, {"Type": G.N("Pages"), "Kids": kids, "Count": len(kids)})
+    return d.write(cat)
+
+
 def exc_sig(e: BaseException) -> str:
     tb = traceback.extract_tb(e.__traceback__)
     where = tb[-1].name if tb else "?"
